@@ -387,12 +387,16 @@ where
     D: Dimension,
 {
     pub fn new(data: ArrayBase<Sd, D>) -> Self {
-        let x = Array1::from_iter((0..data.shape()[0]).map(|i| {
+        // data with less than two axes has no points along the missing axes;
+        // `build` reports the missing dimension
+        let len_x = data.shape().first().copied().unwrap_or(0);
+        let len_y = data.shape().get(1).copied().unwrap_or(0);
+        let x = Array1::from_iter((0..len_x).map(|i| {
             cast(i).unwrap_or_else(|| {
                 unimplemented!("casting from usize to a number should always work")
             })
         }));
-        let y = Array1::from_iter((0..data.shape()[1]).map(|i| {
+        let y = Array1::from_iter((0..len_y).map(|i| {
             cast(i).unwrap_or_else(|| {
                 unimplemented!("casting from usize to a number should always work")
             })
